@@ -225,6 +225,17 @@ class TermInterp:
         # method-style helpers that are identity on terms
         if isinstance(f, ast.Attribute) and f.attr in ("astype", "copy", "flatten"):
             return self.ev(f.value, env)
+        if isinstance(f, ast.Attribute) and f.attr in ("reshape", "ravel", "squeeze"):
+            # point-wise terms: the shape of an array does not change the value of an entry; a one-element stand-in list
+            # (the representative of a loop variable's iterable) denotes its element
+            v = self.ev(f.value, env)
+            return v[0] if isinstance(v, list) and len(v) == 1 else v
+        if isinstance(f, ast.Attribute) and f.attr in ("max", "min", "sum", "mean") and not node.args and not node.keywords:
+            # x.max() ≡ max(x): evaluated exactly like the function form (same hooks)
+            syn = ast.Call(func=ast.Name(id=f.attr, ctx=ast.Load()), args=[f.value], keywords=[])
+            ast.copy_location(syn, node)
+            ast.fix_missing_locations(syn)
+            return self.call(syn, env)
         args = [self.ev(a, env) for a in node.args if not isinstance(a, ast.Starred)]
         if any(isinstance(a, ast.Starred) for a in node.args):
             raise Unsupported("starred call argument")
